@@ -1,1 +1,1 @@
-def indicesUsesFftshiftBackend : Bool := true
+def indicesUsesFftshiftBackend : Bool := false
